@@ -294,6 +294,15 @@ def locate(src, path, file="?", cfg_pick=None):
     for sc in parts[:-1]:
         nxt = []
         for (start, end) in regions:
+            if sc.startswith("fn "):
+                # a function body as scope (nested fn items)
+                try:
+                    outer = find_fn(src, mask, sc[3:].strip(), start, end, file=file)
+                    nxt.append((outer.body_open + 1, outer.body_close))
+                except AnchorLost as e:
+                    if "0 candidates" not in str(e):
+                        raise
+                continue
             for ob, cb in find_scopes(src, mask, sc, start, end):
                 nxt.append((ob + 1, cb))
         if not nxt:
